@@ -20,6 +20,26 @@ Result / CompileError(line) / FoldError(line) / Skipped and the report each admi
    Worker processes are killed at a per-item time cap; such an item is 'not explored'.
    A rejected run whose exception escaped gets the key C15:escaped:<type>@<file>:<function>
    (innermost pytype frame); harness/c15_min.py reduces its input (ddmin, same type, same site).
+3. Spec-planned families (Outcome.tla PlanCall / Provoke / Compose / Precondition / MutateExo,
+   rendered by harness/c15_fam.py): (a) ill-typed calls - every callable shape (def, lambda,
+   method / staticmethod / classmethod through instance and class, constructor, non-callable
+   values; 0..2 parameters named self / cls / a / b; default, *args, **kw, keyword-only,
+   annotations) called with every call shape (0..3 positionals x unknown / duplicate / keyword-only
+   keywords), one call per line; the binding faults are computed by the spec, confirmed against
+   CPython on every call, and re-computed by TraceC15 when it names the classes that were reported
+   where expected; (b) one provoking text per error class of the PINNED catalogue of
+   pytype/errors/errors.py (and per formatter that shares a class name); (c) composed texts
+   head;precondition;middle;tail where the precondition makes pytype rewrite or re-read the source
+   (bare annotations at function / async function / method / class / module level, type comments,
+   directives) and the tail puts an error on the last line of a compilable or a non-compilable
+   text, with one character that str.splitlines() treats as a line break and CPython does not
+   (FF VT FS GS RS NEL LS PS) at a token boundary, inside a string literal or inside a comment of
+   one region; the same characters in pool texts, with or without a bare annotation put into
+   every function body.  The spec's predictions about these characters (never a new line;
+   harmless inside strings and comments, form feed harmless between tokens, everything else an
+   invalid character) are confirmed against CPython on every text.  Vacuity guards: every class
+   of the catalogue observed where planned, every failed-call class by the call family alone,
+   failed calls with an empty argument list, harmless characters after a rewritten annotation.
 """
 import argparse
 import hashlib
@@ -35,6 +55,7 @@ import warnings
 sys.path.insert(0, os.path.dirname(os.path.abspath(__file__)))
 import boot  # noqa: E402
 import common  # noqa: E402
+import c15_fam  # noqa: E402
 import c15_run  # noqa: E402
 import progs_d  # noqa: E402
 import tlc  # noqa: E402
@@ -42,17 +63,25 @@ import tlc  # noqa: E402
 PID = "C15"
 TRACE_CFG = ("INIT TInit\nNEXT TNext\nINVARIANT Ok\nPOSTCONDITION Done\nCHECK_DEADLOCK FALSE\n"
              "CONSTANTS MaxLines = 1\n MutKinds = {}\n Slots = {}\n MaxMut = 0\n Export = FALSE\n"
-             " MaxSub = 0\n MaxSubDepth = 0\n")
+             " MaxSub = 0\n MaxSubDepth = 0\n Families = {}\n ExoChars = {}\n CallFlagSlice = {}\n NSlices = 1\n Slice = 0\n")
 MODEL_INVS = ("NeverEscapes", "Accepts", "NotCompilable", "Compilable", "LinesInFile",
-              "FailOnlyWhereAllowed", "StagesInOrder", "SubRunsInWindow", "SubRunsClosed", "SubRunsNested")
+              "FailOnlyWhereAllowed", "StagesInOrder", "SubRunsInWindow", "SubRunsClosed", "SubRunsNested",
+              "PlansInCatalogue")
 SLOTS = 8
+CHARSEQ = ("ff", "vt", "fs", "gs", "rs", "nel", "ls", "ps")      # Outcome!CharSeq
+NFLAGSETS = 32                                                   # Outcome!NFlagSets
+QUICK_SLICES = 24                                                # slices of the composed texts at quick tier
 
 
-def model_cfg(maxlines, maxmut, export, maxsub):
-  return ("SPECIFICATION Spec\nCONSTANTS MaxLines = %d\n MutKinds = {%s}\n Slots = {%s}\n MaxMut = %d\n Export = %s\n"
-          " MaxSub = %d\n MaxSubDepth = 2\n"
-          % (maxlines, ",".join('"%s"' % k for k in progs_d.MUTATIONS), ",".join(map(str, range(SLOTS))),
-             maxmut, "TRUE" if export else "FALSE", maxsub)
+def _tset(xs):
+  return "{" + ",".join('"%s"' % x if isinstance(x, str) else str(x) for x in xs) + "}"
+
+
+def model_cfg(maxlines, maxmut, export, maxsub, families=(), chars=(), flags=(), nslices=1, slice_=0):
+  return ("SPECIFICATION Spec\nCONSTANTS MaxLines = %d\n MutKinds = %s\n Slots = %s\n MaxMut = %d\n Export = %s\n"
+          " MaxSub = %d\n MaxSubDepth = 2\n Families = %s\n ExoChars = %s\n CallFlagSlice = %s\n NSlices = %d\n Slice = %d\n"
+          % (maxlines, _tset(progs_d.MUTATIONS), _tset(range(SLOTS)), maxmut, "TRUE" if export else "FALSE", maxsub,
+             _tset(families), _tset(chars), _tset(flags), nslices, slice_)
           + "".join("INVARIANT %s\n" % i for i in MODEL_INVS) + ("INVARIANT ExportInv\n" if export else ""))
 
 
